@@ -35,7 +35,9 @@ def sortDimsPinned (d : Data κ α) : Data κ α :=
 
 /-- base.py `rename` -/
 def rename (d : Data κ α) (dim new : String) : Except Err (Data κ α) :=
-  if dim ∈ d.dims then .ok { d with dims := setAt d.dims (d.index dim) new } else .error .value
+  if dim ∉ d.dims then .error .value
+  else if new ≠ dim ∧ new ∈ d.dims then .error .value
+  else .ok { d with dims := setAt d.dims (d.index dim) new }
 
 /-- base.py `sort(dim)`: argsort of the coordinate, values taken along that axis -/
 def sort (le : κ → κ → Bool) (d : Data κ α) (dim : String) : Except Err (Data κ α) :=
@@ -87,6 +89,7 @@ def split (d : Data κ α) (dim newDim : String) (c : List κ) : Except Err (Dat
 /-- base.py `unfold(dim)`: dim first, the rest flattened C-order; inverse kept (attrs in the code) -/
 def unfold (arange : Nat → List κ) (d : Data κ α) (dim : String) : Except Err (Data κ α) :=
   if ¬ d.folded then .error .value
+  else if "fold_index" ∈ d.dims then .error .value
   else do
     let d1 ← d.reorder [dim]
     let fshape := d1.values.shape
